@@ -38,6 +38,8 @@ import InspectorModel.Spec.StaticSpec
 import InspectorModel.Spec.StringsSpec
 import InspectorModel.Spec.StrAnyMapSpec
 import InspectorModel.Spec.BufSpec
+import InspectorModel.Spec.CopyHyp
+import InspectorModel.Spec.CopyObs
 -- hypothesis predicates evaluated on every real input live next to the lemmas that use them
 import InspectorModel.Proofs.C09
 import InspectorModel.Proofs.C10
